@@ -92,7 +92,8 @@ def c10a(ctx):
     g = fn.cfg
     an = [n for n, x in g.find(lambda x: is_call(x, 'self.authorize_tile_layer'))]
     rets = g.find_stmts(lambda s: isinstance(s, ast.Return))
-    ok = bool(an) and bool(rets) and all(not g.reaches_avoiding(0, r, avoid=set(an)) for r in rets)
+    # (a return statement that contains the call itself evaluates it before it returns)
+    ok = bool(an) and bool(rets) and all(r in an or not g.reaches_avoiding(0, r, avoid=set(an)) for r in rets)
     ctx.check(ok, 'TileServer.layer:authorizes', 'TileServer.layer() returns a layer only after authorize_tile_layer()', fn,
               fail='TileServer.layer() can return a layer without asking authorize_tile_layer()')
 
